@@ -2088,7 +2088,12 @@ class PseudoNetCDFFile(PseudoNetCDFSelfReg, object):
         if exclude:
             varkeys = list(set(list(self.variables)).difference(varkeys))
 
-        varkeys = varkeys + [k for k in self.getCoords() if k not in varkeys]
+        # a coordinate name that is no variable (renamed, or registered ahead
+        # of time with setCoords(..., missing='ignore')) is not asked for
+        varkeys = varkeys + [
+            k for k in self.getCoords()
+            if k not in varkeys and k in self.variables
+        ]
 
         if inplace:
             outf = self
